@@ -395,33 +395,37 @@ fn presentations(r: &mut Rng, is_f32: bool, all: bool) -> Vec<Presentation> {
     let widen: &[bool] = if is_f32 { &[false, true] } else { &[false] };
     // human-readable, self-describing formats (JSON, YAML, TOML ...): one number type, so f32 parts may arrive as f64
     for &f32_as_f64 in widen {
-        v.push(Presentation { shape: Shape::Seq, order: Order::Written, keys: KeyForm::Str, f32_as_f64, human_readable: true, noise: Noise::None });
+        v.push(Presentation { shape: Shape::Seq, order: Order::Written, keys: KeyForm::Str, f32_as_f64, human_readable: true, noise: Noise::None, no_size_hint: false });
         for order in [Order::Written, Order::Reversed, Order::Sorted, Order::Permuted(r.next()), Order::Permuted(r.next())] {
             for keys in [KeyForm::Str, KeyForm::Owned, KeyForm::Borrowed] {
-                v.push(Presentation { shape: Shape::Map, order, keys, f32_as_f64, human_readable: true, noise: Noise::None });
+                v.push(Presentation { shape: Shape::Map, order, keys, f32_as_f64, human_readable: true, noise: Noise::None, no_size_hint: false });
             }
         }
     }
     // keys as bytes / as field positions (what serde's derive accepts besides strings; packed binary formats)
     for keys in [KeyForm::Bytes, KeyForm::Index] {
         for (order, hr) in [(Order::Written, true), (Order::Reversed, true), (Order::Written, false), (Order::Permuted(r.next()), false)] {
-            v.push(Presentation { shape: Shape::Map, order, keys, f32_as_f64: false, human_readable: hr, noise: Noise::None });
+            v.push(Presentation { shape: Shape::Map, order, keys, f32_as_f64: false, human_readable: hr, noise: Noise::None, no_size_hint: false });
         }
     }
     // maps that also hold unknown entries, or one entry twice (an impl may refuse them: Err tolerated, Ok must be right)
     for (order, keys) in [(Order::Written, KeyForm::Str), (Order::Permuted(r.next()), KeyForm::Owned), (Order::Sorted, KeyForm::Borrowed)] {
-        v.push(Presentation { shape: Shape::Map, order, keys, f32_as_f64: false, human_readable: true, noise: Noise::Unknown(r.next()) });
-        v.push(Presentation { shape: Shape::Map, order, keys, f32_as_f64: false, human_readable: true, noise: Noise::Duplicate(r.next()) });
+        v.push(Presentation { shape: Shape::Map, order, keys, f32_as_f64: false, human_readable: true, noise: Noise::Unknown(r.next()), no_size_hint: false });
+        v.push(Presentation { shape: Shape::Map, order, keys, f32_as_f64: false, human_readable: true, noise: Noise::Duplicate(r.next()), no_size_hint: false });
     }
     // hint-driven presentation (serde's flatten buffer, property-lookup formats)
     for keys in [KeyForm::Str, KeyForm::Owned, KeyForm::Borrowed] {
-        v.push(Presentation { shape: Shape::MapByHint, order: Order::Written, keys, f32_as_f64: false, human_readable: true, noise: Noise::None });
+        v.push(Presentation { shape: Shape::MapByHint, order: Order::Written, keys, f32_as_f64: false, human_readable: true, noise: Noise::None, no_size_hint: false });
     }
+    // streaming formats: no size hints
+    v.push(Presentation { shape: Shape::Seq, order: Order::Written, keys: KeyForm::Str, f32_as_f64: false, human_readable: true, noise: Noise::None, no_size_hint: true });
+    v.push(Presentation { shape: Shape::Map, order: Order::Written, keys: KeyForm::Str, f32_as_f64: false, human_readable: true, noise: Noise::None, no_size_hint: true });
+    v.push(Presentation { shape: Shape::Seq, order: Order::Written, keys: KeyForm::Str, f32_as_f64: false, human_readable: false, noise: Noise::None, no_size_hint: true });
     // binary formats (is_human_readable() = false): positional (bincode, postcard) or with named fields (CBOR, MessagePack)
-    v.push(Presentation { shape: Shape::Seq, order: Order::Written, keys: KeyForm::Str, f32_as_f64: false, human_readable: false, noise: Noise::None });
+    v.push(Presentation { shape: Shape::Seq, order: Order::Written, keys: KeyForm::Str, f32_as_f64: false, human_readable: false, noise: Noise::None, no_size_hint: false });
     for order in [Order::Written, Order::Permuted(r.next())] {
         for keys in [KeyForm::Str, KeyForm::Owned, KeyForm::Borrowed] {
-            v.push(Presentation { shape: Shape::Map, order, keys, f32_as_f64: false, human_readable: false, noise: Noise::None });
+            v.push(Presentation { shape: Shape::Map, order, keys, f32_as_f64: false, human_readable: false, noise: Noise::None, no_size_hint: false });
         }
     }
     if all {
@@ -534,7 +538,7 @@ fn op_tag(op: &Op) -> u64 {
         Op::Ser(_, hr) => 1 + *hr as u64,
         Op::De(p, _) | Op::DeInPlace(p, _, _) => {
             (if matches!(op, Op::DeInPlace(..)) { 4096 } else { 0 }) + 10 + match p.shape { Shape::Map => 0, Shape::Seq => 1, Shape::MapByHint => 128 } + 2 * match p.order { Order::Written => 0, Order::Reversed => 1, Order::Sorted => 2, Order::Permuted(_) => 3 }
-                + 8 * match p.keys { KeyForm::Str => 0, KeyForm::Owned => 1, KeyForm::Borrowed => 2, KeyForm::Bytes => 256, KeyForm::Index => 512 } + 32 * p.f32_as_f64 as u64 + 64 * p.human_readable as u64 + 1024 * match p.noise { Noise::None => 0, Noise::Unknown(_) => 1, Noise::Duplicate(_) => 2 }
+                + 8 * match p.keys { KeyForm::Str => 0, KeyForm::Owned => 1, KeyForm::Borrowed => 2, KeyForm::Bytes => 256, KeyForm::Index => 512 } + 32 * p.f32_as_f64 as u64 + 64 * p.human_readable as u64 + 8192 * p.no_size_hint as u64 + 1024 * match p.noise { Noise::None => 0, Noise::Unknown(_) => 1, Noise::Duplicate(_) => 2 }
         }
         Op::Json(p) => 100 + *p as u64,
         Op::JsonWriter { one_byte, .. } => 200 + *one_byte as u64,
@@ -731,9 +735,9 @@ fn minimise(mut case: Case, class: &Class, known_keys: &[String]) -> (Case, Outc
     if let Op::De(p, plan) = case.op.clone() {
         // simplest presentation first
         for q in [
-            Presentation { shape: Shape::Map, order: Order::Written, keys: KeyForm::Str, f32_as_f64: false, human_readable: true, noise: Noise::None },
-            Presentation { shape: Shape::Map, order: Order::Reversed, keys: KeyForm::Str, f32_as_f64: p.f32_as_f64, human_readable: true, noise: Noise::None },
-            Presentation { shape: Shape::Map, order: Order::Sorted, keys: KeyForm::Str, f32_as_f64: p.f32_as_f64, human_readable: true, noise: Noise::None },
+            Presentation { shape: Shape::Map, order: Order::Written, keys: KeyForm::Str, f32_as_f64: false, human_readable: true, noise: Noise::None, no_size_hint: false },
+            Presentation { shape: Shape::Map, order: Order::Reversed, keys: KeyForm::Str, f32_as_f64: p.f32_as_f64, human_readable: true, noise: Noise::None, no_size_hint: false },
+            Presentation { shape: Shape::Map, order: Order::Sorted, keys: KeyForm::Str, f32_as_f64: p.f32_as_f64, human_readable: true, noise: Noise::None, no_size_hint: false },
             Presentation { noise: Noise::None, ..p },
             Presentation { human_readable: true, ..p },
             Presentation { keys: KeyForm::Str, ..p },
